@@ -29,6 +29,9 @@ func (gdef *GDEF) parseMarkGlyphSetsDef(src []byte) error {
 	}
 	offset := binary.BigEndian.Uint16(src[headerSize:])
 	if offset != 0 {
+		if L := len(src); L < int(offset) {
+			return fmt.Errorf("EOF: expected length: %d, got %d", offset, L)
+		}
 		var err error
 		gdef.MarkGlyphSetsDef, _, err = ParseMarkGlyphSets(src[offset:])
 		if err != nil {
@@ -48,6 +51,9 @@ func (gdef *GDEF) parseItemVarStore(src []byte) (int, error) {
 	}
 	offset := binary.BigEndian.Uint32(src[headerSize:])
 	if offset != 0 {
+		if L := len(src); L < int(offset) {
+			return 0, fmt.Errorf("EOF: expected length: %d, got %d", offset, L)
+		}
 		var err error
 		gdef.ItemVarStore, _, err = ParseItemVarStore(src[offset:])
 		if err != nil {
